@@ -140,17 +140,6 @@ pub fn check(scn: &Scenario, stats: &mut Stats) -> Vec<Violation> {
     for (n, &e) in scn.entropy.iter().enumerate() {
         // the library entry point on the first two schedules, the coded pipeline (same code path,
         // exposes codes and the graph) on all of them
-        if n < 2 {
-            let mut spec = LintSpec::new(&scn.world, e, Api::Run);
-            spec.personality = scn.personality;
-            let o = lint::run(&spec);
-            stats.inc("t1_incarnations");
-            if o.panic.is_some() || o.import_budget_exceeded {
-                stats.inc("skipped_crash_or_hang(C06's subject)");
-                return out;
-            }
-            runs.push((e, o.diags));
-        }
         let mut spec = LintSpec::new(&scn.world, e, Api::Coded);
         spec.personality = scn.personality;
         spec.want_snapshot = true;
@@ -164,7 +153,19 @@ pub fn check(scn: &Scenario, stats: &mut Stats) -> Vec<Violation> {
             stats.inc("skipped_crash_or_hang(C06's subject)");
             return out;
         }
-        coded.push((e, o));
+        let o_coded = o;
+        if n < 2 {
+            let mut spec = LintSpec::new(&scn.world, e, Api::Run);
+            spec.personality = scn.personality;
+            let o = lint::run(&spec);
+            stats.inc("t1_incarnations");
+            if o.panic.is_some() || o.import_budget_exceeded {
+                stats.inc("skipped_crash_or_hang(C06's subject)");
+                return out;
+            }
+            runs.push((e, o.diags));
+        }
+        coded.push((e, o_coded));
     }
     // harness consistency: both entry points, same schedule
     for ((_, r), (_, c)) in runs.iter().zip(&coded) {
